@@ -111,6 +111,9 @@ func init() {
 			"action": {"Delete"}, "name": {"x"}, "identity": {"auto1"}, "requestor_netblock": {"0.0.0.0/0"}, "target_netblock": {"0.0.0.0/0"},
 			"pubkey": {b64raw(vfKey("user_p256_1").pkixDER())}, "port": {"4000"}, "response_type": {"code"}, "client_id": {"clientA"}, "scope": {"openid"},
 			"redirect_uri": {"https://a.example.com/cb"}, "grant_type": {"authorization_code"}, "duration": {"1h"}}
+		if a := w.art("last:clitoken"); a != nil && st.N%3 != 0 {
+			params.Set("token", a.Value) // a CLI web-auth token the user legitimately holds
+		}
 		if strings.Contains(path, "TOTP") || strings.Contains(path, "totp") {
 			params.Set("index", fmt.Sprint(f.TOTPIndex))
 		}
@@ -210,6 +213,8 @@ func init() {
 				r.Header["Origin"] = "https://keymaster.sim.evil.example.net"
 			case "port":
 				r.Header["Origin"] = "https://keymaster.sim:8443"
+			case "null":
+				r.Header["Origin"] = "null" // what a browser sends from a sandboxed frame or a no-referrer page
 			default:
 				r.Header["Origin"] = "https://evil.example.net"
 			}
@@ -330,6 +335,10 @@ func genRoutePlan(r *rand.Rand, tier string) *vfPlan {
 	na := uint32(r.Uint64())
 	add(vfStep{Op: "rolecert", Sess: "adm", A: "auto1", L: []string{netip.PrefixFrom(netip.AddrFrom4([4]byte{byte(na >> 24), byte(na >> 16), byte(na >> 8), byte(na)}), bits).Masked().String()}, B: "user_p256_3"})
 	add(vfStep{Op: "expire_cookie"})
+	if chance(r, 0.7) {
+		add(vfStep{Op: "mintsession", Sess: "web0", User: "alice", N: int64(AuthTypeU2F | AuthTypePassword | AuthTypeTOTP | AuthTypeSymantecVIP)})
+		add(vfStep{Op: "clishow", Sess: "web0"})
+	}
 	if chance(r, 0.5) {
 		add(vfStep{Op: "mintsession", Sess: "web", User: "alice", N: int64(AuthTypeU2F | AuthTypePassword | AuthTypeTOTP | AuthTypeSymantecVIP)})
 		add(vfStep{Op: "oidc_authorize", Sess: "web", A: "clientA", L: []string{"method:nochallenge"}})
@@ -354,7 +363,7 @@ func genRoutePlan(r *rand.Rand, tier string) *vfPlan {
 			add(vfStep{Op: "advance", D: pick(r, []string{"1s", "31s", "10m"})})
 			continue
 		}
-		add(vfStep{Op: "probe", N: int64(r.IntN(200)), A: pick(r, methods), B: pick(r, shapes), C: pick(r, []string{"", "", "origin", "referer", "lookalike", "port", "samesite"})})
+		add(vfStep{Op: "probe", N: int64(r.IntN(200)), A: pick(r, methods), B: pick(r, shapes), C: pick(r, []string{"", "", "origin", "referer", "lookalike", "port", "null", "samesite"})})
 	}
 	return p
 }
